@@ -75,6 +75,31 @@ def _np():
     return m
 
 
+class ValSet:
+    """set() inside the sketch: list-backed, membership by == (comparisons of symbolic hash values fork, so collisions are explored)"""
+
+    def __init__(self, it=()):
+        self.items = []
+        for x in it:
+            self.add(x)
+
+    def __contains__(self, x):
+        for y in self.items:
+            if x == y:
+                return True
+        return False
+
+    def add(self, x):
+        if x not in self:
+            self.items.append(x)
+
+    def __len__(self):
+        return len(self.items)
+
+    def __iter__(self):
+        return iter(list(self.items))
+
+
 def smax(a, b):
     c = a > b
     if c is True:
@@ -87,7 +112,9 @@ def smax(a, b):
 def load_hll():
     xx = types.ModuleType('xxhash')
     xx.xxh32 = _XX
-    ns = loader.load('outrank/algorithms/sketches/counting_ultiloglog.py', shims={'numpy': _np(), 'xxhash': xx}, extra={'max': smax},
+    xx.xxh32_intdigest = lambda data, seed=0: HASH[bytes(data)]
+    xx.xxh64_intdigest = xx.xxh32_intdigest
+    ns = loader.load('outrank/algorithms/sketches/counting_ultiloglog.py', shims={'numpy': _np(), 'xxhash': xx}, extra={'max': smax, 'set': ValSet},
                      record=['HyperLogLogWCache', 'HyperLogLogWCache._hasher_update', 'HyperLogLogWCache.add', 'HyperLogLogWCache.__len__'])
     return ns['HyperLogLogWCache']
 
@@ -173,6 +200,20 @@ def run_job(job):
     return hutil.run_symx(job, setup, body)
 
 
+def _real_collisions(seed, k):
+    import xxhash
+    seen, out, i = {}, [], 0
+    while len(out) < k and i < 3_000_000:
+        s = f'k{i}'
+        d = xxhash.xxh32(s.encode(), seed=seed).intdigest()
+        if d in seen:
+            out.append((seen[d], s))
+        else:
+            seen[d] = s
+        i += 1
+    return out
+
+
 def replay(w):
     """real class, real xxhash: the property is about insertion sequences, so the witness sequence is replayed on a re-scaled REAL instance
     with distinct real strings (hash values are whatever xxhash gives; clauses that depend on particular hash values are replayed by search over strings)."""
@@ -190,8 +231,18 @@ def replay(w):
     import itertools
     import random
     rnd = random.Random(1)
+    # items to which the solver gave EQUAL hash values are replayed with real strings whose xxh32 digests (seed = p) really collide
+    # (birthday search), so that a defect which only shows under a 32-bit collision is reproduced on the real build
+    hv = w.get('hash') or []
+    classes = {}
+    for i, h in enumerate(hv):
+        classes.setdefault(h, []).append(i)
+    colliding = [c for c in classes.values() if len(c) >= 2]
+    pairs = _real_collisions(P, len(colliding)) if colliding else []
     for attempt in range(200):
-        names = [f'v{attempt}_{i}_{rnd.randrange(10 ** 6)}' for i in range(max(w['seq']) + 1)]
+        names = [f'v{attempt}_{i}_{rnd.randrange(10 ** 6)}' for i in range(max(max(w['seq']) + 1, len(hv)))]
+        for cls, pr in zip(colliding, pairs):
+            names[cls[0]], names[cls[1]] = pr
         o = mk()
         seen = []
         prev = 0
